@@ -44,6 +44,9 @@ pub enum Fault {
     /// crash the peer that sends / receives the n-th datagram, at that moment
     CrashPeer(usize),
     DropTwo(usize, usize),
+    /// every reply to a store request of X is held back 450 ms / dropped (long store phase)
+    HoldStoreAcks,
+    DropStoreAcks,
 }
 
 #[derive(Clone, Debug)]
@@ -157,20 +160,36 @@ fn run_script(script: &Script, fault: Fault) -> Outcome {
     let counter = Rc::new(RefCell::new((0usize, false, None::<SocketAddrV4>)));
     let contacted: Rc<RefCell<HashSet<SocketAddrV4>>> = Rc::new(RefCell::new(HashSet::new()));
     {
-        let counter = std::sync::Arc::new(std::sync::Mutex::new((0usize, false, None::<SocketAddrV4>, HashSet::<SocketAddrV4>::new())));
+        let counter: SharedHook = std::sync::Arc::new(std::sync::Mutex::new(HookState::default()));
         let c2 = counter.clone();
         w.set_fault(Some(Box::new(move |info: &SendInfo| {
             if info.from != xaddr && info.to != xaddr {
                 return None;
             }
             let mut c = c2.lock().unwrap_or_else(|e| e.into_inner());
-            let n = c.0;
-            c.0 += 1;
+            let n = c.n;
+            c.n += 1;
             if info.from == xaddr {
-                c.3.insert(info.to);
+                c.contacted.insert(info.to);
+                if let Some(k) = Krpc::parse(info.bytes) {
+                    if matches!(k.q.as_deref(), Some("put") | Some("announce_peer") | Some("announce_signed_peer")) {
+                        c.store_tids.insert(k.t.clone());
+                        if c.first_store_at.is_none() {
+                            c.first_store_at = Some(info.now);
+                        }
+                    }
+                }
             }
             let peer = if info.from == xaddr { info.to } else { info.from };
-            let hit = |c: &mut (usize, bool, Option<SocketAddrV4>, HashSet<SocketAddrV4>)| c.1 = true;
+            let hit = |c: &mut HookState| c.hit = true;
+            if matches!(fault, Fault::HoldStoreAcks | Fault::DropStoreAcks) && info.to == xaddr {
+                if let Some(k) = Krpc::parse(info.bytes) {
+                    if k.y != b'q' && c.store_tids.contains(&k.t) {
+                        hit(&mut c);
+                        return if fault == Fault::DropStoreAcks { Some(vec![]) } else { Some(vec![(info.bytes.to_vec(), info.latency + 450 * MS)]) };
+                    }
+                }
+            }
             match fault {
                 Fault::Drop(k) if k == n => {
                     hit(&mut c);
@@ -210,7 +229,7 @@ fn run_script(script: &Script, fault: Fault) -> Outcome {
                 }
                 Fault::CrashPeer(k) if k == n => {
                     hit(&mut c);
-                    c.2 = Some(peer);
+                    c.crash = Some(peer);
                     Some(vec![])
                 }
                 _ => None,
@@ -229,6 +248,7 @@ fn run_script(script: &Script, fault: Fault) -> Outcome {
     let bound_total = 600 * SEC;
     let mut crashed: HashSet<SocketAddrV4> = HashSet::new();
     let mut nodes: Vec<Option<Node>> = net.nodes.into_iter().map(Some).collect();
+    let mut first_store_at_prev: Option<u64> = None;
     loop {
         let now = w.now();
         // start calls whose placement is due
@@ -240,6 +260,7 @@ fn run_script(script: &Script, fault: Fault) -> Outcome {
                 1 => Some(t_start + 130 * MS),
                 2 => Some(t_start + 520 * MS),
                 3 => first_done.map(|t| t + 10 * MS),
+                5 => first_store_at_prev.map(|t| t + 25 * MS),
                 _ => first_done.map(|t| t + 6 * MIN),
             };
             if started == 0 || due.map(|d| now >= d).unwrap_or(false) {
@@ -253,7 +274,8 @@ fn run_script(script: &Script, fault: Fault) -> Outcome {
             }
         }
         // crash requested by the fault hook
-        let to_crash = counter_reader().borrow().as_ref().and_then(|c| c.lock().unwrap_or_else(|e| e.into_inner()).2.take());
+        let to_crash = counter_reader().borrow().as_ref().and_then(|c| c.lock().unwrap_or_else(|e| e.into_inner()).crash.take());
+        let first_store_at = counter_reader().borrow().as_ref().and_then(|c| c.lock().unwrap_or_else(|e| e.into_inner()).first_store_at);
         if let Some(addr) = to_crash {
             if addr != xaddr && !crashed.contains(&addr) {
                 if let Some(slot) = nodes.iter_mut().find(|n| n.as_ref().map(|n| n.addr == addr).unwrap_or(false)) {
@@ -264,6 +286,7 @@ fn run_script(script: &Script, fault: Fault) -> Outcome {
                 }
             }
         }
+        first_store_at_prev = first_store_at;
         let mut all = started == script.calls.len();
         for c in calls.iter_mut().flatten() {
             if !c.task.poll(now) {
@@ -284,6 +307,7 @@ fn run_script(script: &Script, fault: Fault) -> Outcome {
                 1 => t_start + 130 * MS,
                 2 => t_start + 520 * MS,
                 3 => calls[0].as_ref().and_then(|c| c.task.finished).map(|t| t + 10 * MS).unwrap_or(u64::MAX),
+                5 => first_store_at.map(|t| t + 25 * MS).unwrap_or(now + 10 * MS),
                 _ => calls[0].as_ref().and_then(|c| c.task.finished).map(|t| t + 6 * MIN).unwrap_or(u64::MAX),
             }
         } else {
@@ -300,7 +324,7 @@ fn run_script(script: &Script, fault: Fault) -> Outcome {
         let rc = counter_reader();
         let g = rc.borrow();
         let c = g.as_ref().expect("counter").lock().unwrap_or_else(|e| e.into_inner());
-        (c.0, c.1, c.3.len() as u64)
+        (c.n, c.hit, c.contacted.len() as u64)
     };
     let _ = (counter, contacted);
     let bound = 60 * SEC + 2 * SEC * contacted_n;
@@ -344,10 +368,20 @@ fn run_script(script: &Script, fault: Fault) -> Outcome {
     Outcome { messages: msgs, violations, overlapped, fault_hit }
 }
 
-thread_local! {
-    static COUNTER: Rc<RefCell<Option<std::sync::Arc<std::sync::Mutex<(usize, bool, Option<SocketAddrV4>, HashSet<SocketAddrV4>)>>>>> = Rc::new(RefCell::new(None));
+#[derive(Default)]
+struct HookState {
+    n: usize,
+    hit: bool,
+    crash: Option<SocketAddrV4>,
+    contacted: HashSet<SocketAddrV4>,
+    first_store_at: Option<u64>,
+    store_tids: HashSet<Vec<u8>>,
 }
-fn counter_reader() -> Rc<RefCell<Option<std::sync::Arc<std::sync::Mutex<(usize, bool, Option<SocketAddrV4>, HashSet<SocketAddrV4>)>>>>> {
+type SharedHook = std::sync::Arc<std::sync::Mutex<HookState>>;
+thread_local! {
+    static COUNTER: Rc<RefCell<Option<SharedHook>>> = Rc::new(RefCell::new(None));
+}
+fn counter_reader() -> Rc<RefCell<Option<SharedHook>>> {
     COUNTER.with(|c| c.clone())
 }
 
@@ -413,6 +447,25 @@ pub fn run(a: &Args) -> Report {
             }
         }
     }
+    // store-phase pairs: second call issued 25 ms after the first store request left, while every
+    // store acknowledgement is held back 450 ms or dropped
+    let mut store_phase: Vec<(Script, Fault)> = vec![];
+    for c1 in [Call::PutImmutable, Call::PutMutable, Call::AnnouncePeer, Call::AnnounceSigned] {
+        for c2 in CALLS {
+            for f in [Fault::HoldStoreAcks, Fault::DropStoreAcks] {
+                store_phase.push((Script { seed: mix(a.seed, 0x5707e + store_phase.len() as u64), servers: 4, x_server: false, calls: vec![(c1, false, 0), (c2, false, 5)] }, f));
+            }
+        }
+    }
+    for (i, (s, f)) in store_phase.iter().enumerate() {
+        if i as u64 % a.nshards.max(1) != a.shard {
+            continue;
+        }
+        if let Some(o) = run_script_guarded(&mut r, s, *f) {
+            judge(&mut r, s, *f, &o);
+        }
+        r.count("store_phase_pairs");
+    }
     for (i, s) in directed.iter().enumerate() {
         if i as u64 % a.nshards.max(1) != a.shard {
             continue;
@@ -475,6 +528,10 @@ fn parse_fault(s: &str) -> Fault {
         Fault::CrashPeer(n(0))
     } else if s.starts_with("DropTwo(") {
         Fault::DropTwo(n(0), n(1))
+    } else if s.starts_with("HoldStoreAcks") {
+        Fault::HoldStoreAcks
+    } else if s.starts_with("DropStoreAcks") {
+        Fault::DropStoreAcks
     } else {
         Fault::None
     }
